@@ -69,6 +69,15 @@ def build_records(seq, ctx):
     if not built.ok:
         ctx.cls("discarded:constructor-raised:" + built.type)
         return None
+    # every record is of the type it was created with - whatever other types were defined after it (the expected
+    # models below are taken from the records, so this must hold independently)
+    for m, r in zip(seq, built.value):
+        if m.kind == "plain":
+            want = (m.p["desc"][0], tuple(tuple(f) for f in m.p["desc"][1]))
+            have = (r._desc.name, tuple(tuple(f) for f in r._desc.get_field_tuples()))
+            if have != want:
+                raise Violation("record-reports-another-type", "a record created with %r says it is of type %r once the other "
+                                "records of the sequence have been created" % (want, have))
     return built.value
 
 
@@ -170,7 +179,20 @@ def check_ref_to_impl(case, ctx):
     # (only for variant-free streams, the strict decoder models writer output)
     if records:
         ctx.nontriv()
-    res = impl(lambda: list(RecordStreamReader(io.BytesIO(data))))
+    def consume():
+        # read like a consumer does: every record is used (printed, turned into a dict, its type's field table looked
+        # at - what the csv / line / sqlite writers do) before the next one is pulled from the stream
+        out = []
+        for r in RecordStreamReader(io.BytesIO(data)):
+            out.append(r)
+            if hasattr(r, "_desc"):
+                r._desc.get_all_fields()
+                r._desc.getfields("string")
+                r._asdict()
+                repr(r)
+        return out
+
+    res = impl(consume)
     if not res.ok:
         vs = sorted({str(v) for v in variants})
         raise Violation("ref->impl/read-raised/%s" % res.type, "reader raised %r (variants %s)" % (res, vs))
@@ -282,6 +304,11 @@ def colliding_cases(tier):
         (("t/coll", (("wstring", "no"), ("varint", "id"))), ("t/coll", (("string", "now"), ("varint", "id")))),
         (("t/coll2", (("wstring", "x"), ("stringlist", "b"))), ("t/coll2", (("string", "xw"), ("stringlist", "b")))),
     ]
+    # two type names that become the same Python identifier ('/' is turned into '_') with identical field lists
+    pairs += [
+        (("demo/file_entry", (("string", "no"), ("varint", "id"))), ("demo_file/entry", (("string", "no"), ("varint", "id")))),
+        (("fs/ntfs/mft", (("string", "no"), ("varint", "id"))), ("fs/ntfs_mft", (("string", "no"), ("varint", "id")))),
+    ]
     cases = []
     for A, B in pairs:
         for order in itertools.product("AB", repeat=3):
@@ -296,6 +323,13 @@ def colliding_cases(tier):
     return cases
 
 
+def colliding_ref_cases(tier):
+    # (read direction: only the pairs with different names - for equal identifiers the reference ENCODER would have to
+    # re-announce a type on every switch to produce an unambiguous stream, which is the writer's part, checked above)
+    return [dict(c, widths=[0], variants=[0] * len(c["seq"]), repeat_desc=[], repeat_header=[], bin_names=False)
+            for c in colliding_cases(tier) if len({m.p["desc"][0] for m in c["seq"]}) > 1]
+
+
 def parts(tier):
     return [
         Part("impl-to-ref", check_impl_to_ref, strategy=st.fixed_dictionaries({"seq": gen.sequence_spec()}),
@@ -304,6 +338,7 @@ def parts(tier):
              strategy=C01.focused_strategy().map(lambda c: {"seq": c["seq"]}), examples=(150, 3000)),
         Part("ref-to-impl", check_ref_to_impl, strategy=ref_case(), examples=(200, 3000)),
         Part("colliding-descriptors", check_impl_to_ref, cases=colliding_cases, exhaustive=True),
+        Part("colliding-descriptors-read", check_ref_to_impl, cases=colliding_ref_cases, exhaustive=True),
         Part("golden", check_golden, cases=golden_cases, exhaustive=True),
         Part("large-frames", check_large_frame, cases=large_cases, exhaustive=True),
     ]
